@@ -14,6 +14,7 @@ import (
 	"strings"
 	"sync"
 	"sync/atomic"
+	"syscall"
 	"testing"
 	"time"
 
@@ -169,7 +170,19 @@ func removeCurrentCase() {
 	}
 }
 
+// A call is taken for hung when it has burnt hangLimit of CPU time (a loop that does not end) or
+// has not returned after stallLimit of wall-clock time (blocked for ever). Wall-clock time alone is
+// no evidence on a shared machine: a 0.5 s call was seen to take more than 20 s under load.
 const hangLimit = 20 * time.Second
+const stallLimit = 240 * time.Second
+
+func cpuTime() time.Duration {
+	var ru syscall.Rusage
+	if syscall.Getrusage(syscall.RUSAGE_SELF, &ru) != nil {
+		return 0
+	}
+	return time.Duration(ru.Utime.Nano() + ru.Stime.Nano())
+}
 
 var slowCalls atomic.Int64
 
@@ -177,6 +190,7 @@ var (
 	replayMode bool
 	wdMu       sync.Mutex
 	wdStart    time.Time
+	wdCPU      time.Duration
 	wdCase     Case
 	wdIdx      int
 	wdArmed    bool
@@ -184,7 +198,7 @@ var (
 
 func armWatchdog(c Case, idx int) {
 	wdMu.Lock()
-	wdStart, wdCase, wdIdx, wdArmed = time.Now(), c, idx, true
+	wdStart, wdCPU, wdCase, wdIdx, wdArmed = time.Now(), cpuTime(), c, idx, true
 	wdMu.Unlock()
 }
 
@@ -208,10 +222,13 @@ func startWatchdog() {
 		for {
 			time.Sleep(250 * time.Millisecond)
 			wdMu.Lock()
-			armed, start, c, idx := wdArmed, wdStart, wdCase, wdIdx
+			armed, start, cpu0, c, idx := wdArmed, wdStart, wdCPU, wdCase, wdIdx
 			wdMu.Unlock()
 			if !armed || time.Since(start) < limit {
 				continue
+			}
+			if cpuTime()-cpu0 < limit && time.Since(start) < stallLimit*limit/hangLimit {
+				continue // waiting for the processor, not looping
 			}
 			one := Case{Target: c.Target, Fix: c.Fix}
 			if idx < len(c.Ins) {
@@ -220,7 +237,7 @@ func startWatchdog() {
 				one.Ins = []In{in}
 			}
 			if replayMode || os.Getenv("C11_HANG_CHILD") != "" {
-				fmt.Printf("REPLAY-FAILED property=%s test=%s (call did not return within %v)\n", prop, recordAs, limit)
+				fmt.Printf("REPLAY-FAILED property=%s test=%s (call did not return after %v of CPU time)\n", prop, recordAs, limit)
 				os.Exit(3)
 			}
 			dir := os.Getenv("VERIF_REPLAY_OUT")
@@ -229,7 +246,7 @@ func startWatchdog() {
 			}
 			os.MkdirAll(dir, 0o755)
 			path := filepath.Join(dir, strings.ReplaceAll(recordAs, "/", "_")+"-hang.json")
-			b, _ := json.MarshalIndent(replayDoc{Property: prop, Test: recordAs, Error: fmt.Sprintf("hang: the call did not return within %v (reproduced when the input was re-run alone in a fresh process)", limit), Case: one}, "", " ")
+			b, _ := json.MarshalIndent(replayDoc{Property: prop, Test: recordAs, Error: fmt.Sprintf("hang: the call did not return after %v of CPU time / %v of wall-clock time (reproduced when the input was re-run alone in a fresh process)", limit, stallLimit), Case: one}, "", " ")
 			os.WriteFile(path, b, 0o644)
 			cmd := exec.Command(os.Args[0], "-test.run", "^TestReplay$", "-test.timeout", "120s")
 			cmd.Env = append(os.Environ(), "VERIF_REPLAY="+path, "C11_HANG_CHILD=1", "VERIF_STATS=", "VERIF_REPLAY_OUT=")
